@@ -27,6 +27,8 @@ pub enum AbsChunk {
         /// distances are observable
         lead: u8,
         prog: Vec<AbsOp>,
+        /// 0: nothing; k in 1..=32: pad the chunk's output to exactly k * 64 KiB
+        exact64k: u8,
     },
 }
 
@@ -93,7 +95,7 @@ pub fn concretize_chunks(abs: &[AbsChunk], cfg: L2Cfg) -> Vec<Chunk> {
                 enc.append_raw(&data);
                 chunks.push(Chunk::Raw { reset_dict, data });
             }
-            AbsChunk::Lzma { reset, props, lead, prog } => {
+            AbsChunk::Lzma { reset, props, lead, prog, exact64k } => {
                 let mut r = *reset & 3;
                 if need_dict_reset {
                     r = 3;
@@ -137,7 +139,8 @@ pub fn concretize_chunks(abs: &[AbsChunk], cfg: L2Cfg) -> Vec<Chunk> {
                     let op = concretize_one(ab, &it2, u64::MAX);
                     let produced = it2.out.len() - start;
                     if produced + op_out_len(&op) > MAX_UNPACKED
-                        || it2.out.len() + op_out_len(&op) > cfg.max_total.max(start + 1)
+                        || (*exact64k == 0 && it2.out.len() + op_out_len(&op) > cfg.max_total.max(start + 1))
+                        || (*exact64k > 0 && produced + op_out_len(&op) > (*exact64k as usize).min(32) * 65536)
                     {
                         break;
                     }
@@ -148,6 +151,27 @@ pub fn concretize_chunks(abs: &[AbsChunk], cfg: L2Cfg) -> Vec<Chunk> {
                     it2.apply(&op).expect("valid by construction");
                     enc2.encode(&mut rc, &op);
                     ops.push(op);
+                }
+                if *exact64k > 0 {
+                    // pad the chunk to exactly k * 64 KiB of output
+                    let target = ((*exact64k as usize).min(32) * 65536).min(MAX_UNPACKED);
+                    loop {
+                        let produced = it2.out.len() - start;
+                        if produced >= target || rc.final_len() as usize + 24 > MAX_PACKED {
+                            break;
+                        }
+                        let rem = target - produced;
+                        let op = if rem == 1 || rem == 274 {
+                            Op::Lit(0x6B)
+                        } else if it2.max_dist() >= 1 {
+                            Op::Match { dist: 1, len: (rem.min(273)) as u32 }
+                        } else {
+                            Op::Lit(0x6B)
+                        };
+                        it2.apply(&op).expect("valid by construction");
+                        enc2.encode(&mut rc, &op);
+                        ops.push(op);
+                    }
                 }
                 if ops.is_empty() {
                     // a compressed chunk needs at least one byte of output
@@ -203,7 +227,7 @@ pub fn abs_chunk(max_ops: usize, max_run: u16) -> impl Strategy<Value = AbsChunk
             any::<u8>(),
             abs_program(max_ops, max_run)
         )
-            .prop_map(|(reset, props, lead, prog)| AbsChunk::Lzma { reset, props, lead, prog }),
+            .prop_map(|(reset, props, lead, prog)| AbsChunk::Lzma { reset, props, lead, prog, exact64k: 0 }),
     ]
 }
 
@@ -213,6 +237,7 @@ fn big_unpacked_chunk() -> impl Strategy<Value = AbsChunk> {
         reset: 2,
         props,
         lead: 0,
+        exact64k: 0,
         prog: vec![
             AbsOp::Lit(LitKind::Given, b),
             AbsOp::Lit(LitKind::Noise, b),
@@ -230,9 +255,29 @@ fn big_packed_chunk() -> impl Strategy<Value = AbsChunk> {
         reset: 2,
         props,
         lead: 0,
+        exact64k: 0,
         prog: vec![
             AbsOp::Run { k: 40000, op: Box::new(AbsOp::Lit(LitKind::Noise, b)) },
             AbsOp::Run { k: 40000, op: Box::new(AbsOp::Lit(LitKind::Noise, b ^ 0x55)) },
+        ],
+    })
+}
+
+/// chunk whose output is EXACTLY k * 64 KiB (k = 1..=32): size fields with an all-ones low half
+fn exact_64k_multiple_chunk() -> impl Strategy<Value = AbsChunk> {
+    (props_lzma2(), any::<u8>(), 1u16..=8, 0u8..4, any::<u16>()).prop_map(|(props, b, k, reset, dsel)| AbsChunk::Lzma {
+        reset,
+        props,
+        lead: b,
+        exact64k: k as u8,
+        prog: vec![
+            AbsOp::Lit(LitKind::Given, b),
+            AbsOp::Lit(LitKind::Noise, b),
+            AbsOp::Lit(LitKind::Noise, b ^ 0x5A),
+            AbsOp::Run {
+                k: 241 * k,
+                op: Box::new(AbsOp::Match { dclass: 6, dsel, lclass: 6, lsel: 0 }),
+            },
         ],
     })
 }
@@ -243,6 +288,7 @@ fn over_64k_chunk() -> impl Strategy<Value = AbsChunk> {
         reset,
         props,
         lead: b,
+        exact64k: 0,
         prog: vec![
             AbsOp::Lit(LitKind::Given, b),
             AbsOp::Lit(LitKind::Noise, b),
@@ -256,12 +302,32 @@ fn over_64k_chunk() -> impl Strategy<Value = AbsChunk> {
     })
 }
 
+/// several hundred tiny chunks (chunk counts beyond one byte)
+pub fn many_tiny_chunks() -> BoxedStrategy<Vec<AbsChunk>> {
+    prop::collection::vec(
+        prop_oneof![
+            3 => (any::<bool>(), any::<u16>(), 0u8..3, any::<u8>()).prop_map(|(r, len_sel, fill, seed)| AbsChunk::Raw {
+                reset_dict: r && seed % 16 == 0,
+                len_class: if seed % 5 == 0 { 1 } else { 0 },
+                len_sel,
+                fill,
+                seed
+            }),
+            2 => (0u8..4, props_lzma2(), any::<u8>(), abs_program(3, 2))
+                .prop_map(|(reset, props, lead, prog)| AbsChunk::Lzma { reset, props, lead, prog, exact64k: 0 }),
+        ],
+        250..700,
+    )
+    .boxed()
+}
+
 pub fn abs_chunks(max_chunks: usize, max_ops: usize, max_run: u16, extremes: bool) -> BoxedStrategy<Vec<AbsChunk>> {
     if extremes {
         prop::collection::vec(
             prop_oneof![
                 30 => abs_chunk(max_ops, max_run),
                 3 => over_64k_chunk(),
+                2 => exact_64k_multiple_chunk(),
                 1 => big_unpacked_chunk(),
                 1 => big_packed_chunk(),
             ],
@@ -270,7 +336,7 @@ pub fn abs_chunks(max_chunks: usize, max_ops: usize, max_run: u16, extremes: boo
         .boxed()
     } else {
         prop::collection::vec(
-            prop_oneof![30 => abs_chunk(max_ops, max_run), 2 => over_64k_chunk()],
+            prop_oneof![30 => abs_chunk(max_ops, max_run), 2 => over_64k_chunk(), 1 => exact_64k_multiple_chunk()],
             1..=max_chunks,
         )
         .boxed()
